@@ -91,7 +91,8 @@ fn run_stream<H: BuildHasher + Default + Clone>(a: &Args, sink: &mut Sink) -> se
             extra = serde_json::json!({"sizes": sizes});
         }
         "crash" => { let (n, mk) = if thorough { (6000, 40) } else { (700, 12) }; crash_stream::<H>(sink, &mut rng, &both, n, mk); }
-        "crash_mirror" => { let (n, mk) = if thorough { (5000, 40) } else { (600, 12) }; crash_mirror_stream::<H>(sink, &mut rng, &both, n, mk); }
+        "crash_mirror" => { let (n, mk) = if thorough { (5000, 40) } else { (600, 12) }; crash_mirror_stream::<H>(sink, &mut rng, &both, n, mk, 0); }
+        "post_crash" => { let (n, mk) = if thorough { (12000, 40) } else { (1500, 12) }; crash_mirror_stream::<H>(sink, &mut rng, &both, n, mk, 12); }
         "c06" => random_stream::<H>(sink, &mut rng, &both, &weights_with(&[("sorted_vec", 120), ("sorted_iter", 150)]), n, l),
         "c08" => random_stream::<H>(sink, &mut rng, &both, &weights_with(&[("retain_mut", 90), ("retain", 50), ("iter_mut", 120), ("pop_if", 150)]), n, l),
         "c11" => random_stream::<H>(sink, &mut rng, &both, &weights_with(&[("push_increase", 300), ("push_decrease", 300)]), n, l),
@@ -139,7 +140,7 @@ fn replay<H: BuildHasher + Default + Clone>(a: &Args, sink: &mut Sink) {
         match Op::parse(&lhs) {
             Ok(op) => {
                 if !op.valid_for(q.kind()) { eprintln!("op {} not valid for {}", lhs, q.kind().name()); std::process::exit(2); }
-                if !sink.step(&mut q, &op, lk) { dead = true; }
+                if !sink.step(&mut q, &op, lk) && !sink.survivable { dead = true; }
             }
             Err(e) => { eprintln!("cannot parse `{}`: {}", lhs, e); std::process::exit(2); }
         }
@@ -229,7 +230,7 @@ fn main() {
     let (stats, extra) = {
         let mut sink = Sink {
             w: &mut w, sync: a.sync, cases: 0, ops: 0, faults: 0, nontrivial: Default::default(), op_hist: Default::default(),
-            size_hist: Default::default(), samples: vec![], max_cases: a.max_cases, from_case: a.from_case, skip: a.skip.clone(), mute: false, core_only: false, stream: a.stream.clone(),
+            size_hist: Default::default(), samples: vec![], max_cases: a.max_cases, from_case: a.from_case, skip: a.skip.clone(), mute: false, core_only: false, stream: a.stream.clone(), survivable: false,
         };
         let extra = with_hasher(&a, &mut sink);
         let sizes: Vec<(usize, u64)> = sink.size_hist.iter().map(|(k, v)| (*k, *v)).collect();
